@@ -1,38 +1,80 @@
-(* C17, t-digest part -- no valid sequence of public API calls panics.  The models return Stuck at the
-   panic sites of tdigest/sketch.rs they cover: TDigestMut::new (k < 10), the two assert_ne! of the
-   binary search and the usize underflow of `lower -= 1` in rank, unreachable!() in cdf,
-   check_split_points, and every site of the readers.  The merge pass is a relation (C15), not a
-   function: its sites (buffer[0] on the non-empty contract, Centroid::add's checked weight, the u64
-   weight counter, 2 * k -- the last one was a defect, tdigest-C17-two-k-u16-overflow) are observed by
-   the harness in debug and release builds, not modelled.  Statements only. *)
+(* C17, t-digest part -- no valid sequence of public API calls panics.
+
+   What is and is not a theorem here, plainly.  There is NO program-level theorem "for all sequences of
+   API calls": the merge pass (do_merge) is a RELATION (C15: merge_rel), not a function, because its
+   decisions depend on ln, so a sequence of calls has no single modelled execution.  What is proved:
+   * the FUNCTIONS of the model never return Stuck on the states the relation allows.  Stuck is
+     returned at these panic sites of tdigest/sketch.rs: TDigestMut::new (assert k >= 10), the
+     assert!(k >= 10) of TDigestMut::make on the readers' path, the two assert_ne! of the binary
+     search and the usize underflow of `lower -= 1` in rank, unreachable!() in cdf, check_split_points
+     (the documented assertions on ARGUMENTS -- rank(NaN), quantile outside [0, 1] -- are the caller's
+     preconditions: not in the model, the driver expects the documented panic there);
+   * every state [reach]able by ANY legal outcome of the merge passes -- from new(k) or from a decoded
+     image -- presents, once compressed, a well-formed view, on which all queries are Ok;
+   * a digest returned by the modelled reader, read as a rational state ([td_of_tdb]), is a legal
+     start of a history ([image_ok]) PROVIDED its means are sorted and everything lies inside
+     [min, max] ([ordered_b]): the crate's reader checks neither.  Images violating [ordered_b] are
+     accepted by the crate; what queries do on them is outside every theorem and only exercised by the
+     harness (malformed / foreign legs, no_panic oracle).
+   NOT modelled, observed by the harness in debug and release builds only: the sites inside the merge
+   pass (buffer[0] on the non-empty contract, Centroid::add's checked weight, the u64 weight counter,
+   2 * k -- the last one was a defect, tdigest-C17-two-k-u16-overflow; the weight counter is the known
+   finding tdigest-C14-weight-capacity), arithmetic overflow and slice indexing in general.
+   [reach] uses the EXACT relation merge_rel 0; the harness validates the crate's passes with
+   valid_merge at tolerance 1e-9, so crate executions are instances of [reach] only up to that
+   tolerance.  Statements only. *)
 From Coq Require Import QArith.
-From DS Require Import Base.Prelude Base.TDigestBits Model.TDigest Model.TDigestCodec Spec.TDigestSpec.
+From DS Require Import Base.Prelude Base.TDigestBits Model.TDigest Model.TDigestCodec Model.TDigestBridge Spec.TDigestSpec.
 From DS Require Import Proofs.TDigestProofsBase Proofs.TDigestProofsRank Proofs.TDigestProofsQuantile Proofs.TDigestProofsCdf
-  Proofs.TDigestProofsInproc Proofs.TDigestCodec.
+  Proofs.TDigestProofsInproc Proofs.TDigestProofsReach Proofs.TDigestCodec Proofs.TDigestBridge.
 Open Scope Q_scope.
 
 Theorem c17_tdigest_new : forall k, (10 <= k)%Z -> exists d, td_new k = Ok d.
 Proof. exact td_new_ok. Qed.
 
-(* queries on any well-formed view (hence on any image C14 accepts with sorted means, and on every
-   in-process digest): Ok, never Stuck; split lists only need to be strictly increasing ([] included) *)
+(* queries on any well-formed view: Ok, never Stuck; split lists only need to be strictly increasing
+   ([] included) *)
 Theorem c17_tdigest_queries_never_stuck : forall v, wf_view v ->
   (forall x, exists r, rank v x = Ok (Some r)) /\
   (forall q, exists x, quantile v q = Ok (Some x)) /\
   (forall sp, strictly_increasing sp = true -> exists c p, cdf v sp = Ok (Some c) /\ pmf v sp = Ok (Some p)).
 Proof. exact queries_never_stuck. Qed.
 
-(* every compressed non-empty in-process digest presents such a view *)
-Theorem c17_tdigest_inprocess_views : forall h d, reach h d -> td_buf d = [] -> td_cs d <> [] -> wf_view (td_view d).
-Proof. exact inproc_wf_view. Qed.
+(* every compressed non-empty reachable state presents such a view, whatever the merge passes chose and
+   whether the history started from new(k) or from a decoded image *)
+Theorem c17_tdigest_reachable_views : forall h d, reach h d -> td_buf d = [] -> td_cs d <> [] -> wf_view (td_view d).
+Proof. exact reach_view_wf. Qed.
+
+(* every history whose constructor calls meet their preconditions can be continued: a legal merge
+   pass always exists *)
+Theorem c17_tdigest_progress : forall h, hist_ok h -> exists d, reach h d.
+Proof. exact reach_progress. Qed.
+
+(* "Ok values are usable": the link between the byte-level reader and the rational model.  A digest
+   the reader returns, whose means are sorted and whose contents lie inside [min, max], is a legal
+   history start; with nothing buffered it is itself a well-formed view *)
+Theorem c17_tdigest_decoded_is_a_history_start : forall is_f32 bs s d,
+  tdb_dec is_f32 bs = Ok s -> td_of_tdb s = Some d -> ordered_b d = true -> image_ok d.
+Proof. exact decoded_image_ok. Qed.
+
+Theorem c17_tdigest_decoded_view : forall is_f32 bs s d,
+  tdb_dec is_f32 bs = Ok s -> td_of_tdb s = Some d -> ordered_b d = true ->
+  td_buf d = [] -> td_cs d <> [] -> wf_view (td_view d).
+Proof. exact decoded_view_wf. Qed.
 
 (* the readers never reach a panic site, and serialize -> deserialize of a serializable state is Ok *)
 Theorem c17_tdigest_codec_never_stuck :
   (forall is_f32 bs, tdb_dec is_f32 bs <> Stuck) /\ (forall s, wfb s -> tdb_dec false (tdb_enc s) = Ok s).
 Proof. split; [exact tdb_dec_never_stuck|exact tdb_roundtrip]. Qed.
 
-(* non-vacuity: the documented extreme k = 10; a single-centroid view answers every query *)
+(* non-vacuity: the documented extreme k = 10; a single-centroid view answers every query; the
+   image of Props/C11_tdigest.v (k = 100, centroids (1.0,w1) (2.5,w7) (4.0,w1)) is decoded to a
+   rational state that passes ordered_b *)
 Example c17_tdigest_example :
   (exists d, td_new 10 = Ok d) /\ td_new 9 = Stuck /\
-  rank (mkView 3 3 [(3, 1%positive)] 1) 3 = Ok (Some (1 # 2)) /\ cdf (mkView 3 3 [(3, 1%positive)] 1) [] = Ok (Some [1]).
-Proof. repeat split; try reflexivity. eexists; reflexivity. Qed.
+  rank (mkView 3 3 [(3, 1%positive)] 1) 3 = Ok (Some (1 # 2)) /\ cdf (mkView 3 3 [(3, 1%positive)] 1) [] = Ok (Some [1]) /\
+  exists d, td_of_tdb c11_example_state = Some d /\ ordered_b d = true /\ td_total d = 9%Z.
+Proof.
+  split; [eexists; reflexivity|]. split; [reflexivity|]. split; [reflexivity|]. split; [reflexivity|].
+  eexists. split; [vm_compute; reflexivity|]. split; vm_compute; reflexivity.
+Qed.
